@@ -159,6 +159,19 @@ class World:
     def put_link(self, rel, to):
         self.files[tuple(rel)] = ("link", tuple(to))
 
+    def remove_files(self, pred):
+        """Removes the regular files whose (rel, content) satisfies pred, and the hard links that point at them."""
+        gone = set(k for k, v in self.files.items() if v[0] == "file" and pred(k, v[1]))
+        changed = True
+        while changed:
+            changed = False
+            for k, v in list(self.files.items()):
+                if k not in gone and v[0] == "link" and tuple(v[1]) in gone:
+                    gone.add(k)
+                    changed = True
+        for k in gone:
+            del self.files[k]
+
     def put_dir(self, rel):
         self.files[tuple(rel)] = ("dir",)
 
